@@ -230,11 +230,11 @@ func (c *monC18) End(m *Machine) *Violation { return nil }
 // ---- scripted scenarios: every route and middleware -------------------------------------------
 
 type c18Scenario struct {
-	Name   string
-	Setup  []Op
-	Target Op
-	After  []Op
-	Min    bool // minimal configuration: no lock/confirm/remember, no TOTP replay protection (fewer later saves that could mask a lost one)
+	Name    string
+	Setup   []Op
+	Target  Op
+	After   []Op
+	Min     bool // minimal configuration: no lock/confirm/remember, no TOTP replay protection (fewer later saves that could mask a lost one)
 	OneTime bool // with Min: keep TOTP replay protection on
 }
 
